@@ -493,3 +493,14 @@ func DefaultSignature(v *Violation) string {
 	}
 	return s
 }
+
+// SeqMode switches the runtime into (or out of) sequential mode: no threads are
+// owned, Choose answers 0 unless driven by EnumerateSeq, and the clock comes
+// from SeqClock/SeqSleep when set.
+func SeqMode(on bool) {
+	if on {
+		mode.Store(ModeSeq)
+	} else {
+		mode.Store(ModeFree)
+	}
+}
